@@ -540,6 +540,14 @@ class Sectionable(BaseObject):
 
             raise ValueError("Section named '%s' does not exist" % pathlist[0])
 
+        # A relative path may end with a step to the parent or to the Section itself.
+        if pathlist[0] == "..":
+            if self.parent is None:
+                raise ValueError("Section '%s' has no parent" % self.name)
+            return self.parent
+        if pathlist[0] == ".":
+            return self
+
         return self._match_iterable(self.sections, pathlist[0])
 
     def find(self, key=None, type=None, findAll=False, include_subtype=False):
